@@ -196,8 +196,8 @@ impl TransportConstraint {
             let latest_arrival = route_ctx.state().get_latest_arrival_at(activity_ctx.index + 1).copied();
             (next.place.location, latest_arrival.unwrap_or(next.place.time.end))
         } else {
-            // open vrp
-            (target.place.location, target.place.time.end.min(actor.detail.time.end))
+            // open vrp: the time window of the target limits its arrival (checked below), not its departure
+            (target.place.location, actor.detail.time.end)
         };
 
         let arr_time_at_next = departure
